@@ -86,7 +86,11 @@ CFG = {
                      "inherited and inverted edges; non-trivial = distinct projects with at least one edge"),
     "C05": dict(files=["Properties/C05.lean"], oracles=("C05",),
                 knobs=[(3, Knobs(p_limits=0.8, p_tasklimits=0.4, p_group=0.5, big_effort=0.35, dur_weeks=[1, 1, 2], p_team=0.1)),
-                       (1, Knobs(envelope="alap", p_limits=0.8, p_tasklimits=0.3, big_effort=0.3, p_team=0.1))],
+                       (1, Knobs(envelope="alap", p_limits=0.8, p_tasklimits=0.3, big_effort=0.3, p_team=0.1)),
+                       # projects that start in the middle of the day (noon, 13:00, 15:00): a day of a daily limit is a calendar
+                       # day of the project's time zone whatever the time of day the project starts at
+                       (1, Knobs(p_limits=0.9, p_tasklimits=0.2, p_wh=0.5, big_effort=0.4, dur_weeks=[1, 2], p_team=0.0, resolutions=[3600, 1800], p_offstart=0.8, offstart_aligned=True,
+                                 start_offsets=[12 * 3600, 13 * 3600, 12 * 3600, 15 * 3600]))],
                 nontrivial=lambda p, r: any(rr.get("limits") for _, rr, _ in A.flat_resources(p)) or any(t.get("limits") for _, t, _, _ in A.flat_tasks(p)),
                 rule="projects with daily/weekly limits on resources, groups, tasks and containers, efforts that overrun the declared end, "
                      "starts in ISO weeks 52/53/1; oracle: booked time per calendar day / ISO week of each limited set <= limit; "
